@@ -84,6 +84,14 @@ def props_of_error(built, specs_by_key, e):
             o = built.origin[sp['line'] - 1]
             if o and o[0] == 'contract' and (len(o) < 4 or o[3] is None) and 'assert' in e.get('msg', ''):
                 hp = list(o[4]) if len(o) > 4 and o[4] else fprops
+                # a section marker `// @props C03 C02` inside the hint block, above the failing assert, narrows it further
+                ln = sp['line'] - 1
+                while ln >= 0 and built.origin[ln] == o:
+                    mm = re.search(r'@props\s+(C[0-9]+(?:[ ,]+C[0-9]+)*)', built.lines[ln])
+                    if mm:
+                        hp = [x for x in re.split(r'[,\s]+', mm.group(1).strip()) if x]
+                        break
+                    ln -= 1
                 return hp, '%s#proof-step(%s:%s)' % (fn, o[1], o[2])
     return fprops, '%s#safety' % fn
 
